@@ -209,10 +209,17 @@ func (c *choiceCasesResolver) SetValue(elemName string, v int32, oldValue int32)
 func (c *choiceCasesResolver) getBestCaseName() string {
 	var bestCaseName string
 	bestCasePrio := int32(math.MaxInt32)
-	for caseName, cas := range c.cases {
-		if cas.GetLowestPriorityValue() <= bestCasePrio {
+	// go through the cases in a defined order, such that every call yields the same result,
+	// also if two cases rank equal. A choice without any populated case has no best case.
+	caseNames := make([]string, 0, len(c.cases))
+	for caseName := range c.cases {
+		caseNames = append(caseNames, caseName)
+	}
+	slices.Sort(caseNames)
+	for _, caseName := range caseNames {
+		if prio := c.cases[caseName].GetLowestPriorityValue(); prio < bestCasePrio {
 			bestCaseName = caseName
-			bestCasePrio = cas.GetLowestPriorityValue()
+			bestCasePrio = prio
 		}
 	}
 	return bestCaseName
